@@ -260,14 +260,8 @@ def cases(ctx):
     return out
 
 
-def run(tier, seed, replay=None):
-    ctx = Ctx('C04', tier, seed)
-    ctx.stats['rule'] = ('24 bundled samples + random lenses (1-12 surfaces, mirrors, conics, finite/infinite object, '
-                         'EPD/imageFNO/objectNA, angle/object_height fields, stop first/interior/last); a case is '
-                         'non-trivial when the lens builds and has finite focal length; distinct by descriptor hash')
-    aud = audit('C04')
+def work(ctx, cs):
     drv = Driver()
-    cs = [replay] if replay else cases(ctx)
     lines, keep = [], []
     for case in cs:
         try:
@@ -312,6 +306,17 @@ def run(tier, seed, replay=None):
             ctx.cmp_list(rname + '.y', y, yu[0::2], case)
             ctx.cmp_list(rname + '.u', u, yu[1::2], case)
         predicate(ctx, optic, case, vals, rays)
+
+
+def run(tier, seed, replay=None):
+    ctx = Ctx('C04', tier, seed)
+    ctx.stats['rule'] = ('24 bundled samples + random lenses (1-12 surfaces, mirrors, conics, finite/infinite object, '
+                         'EPD/imageFNO/objectNA, angle/object_height fields, stop first/interior/last); a case is '
+                         'non-trivial when the lens builds and has finite focal length; distinct by descriptor hash')
+    aud = audit('C04')
+    cs = [replay] if replay else cases(ctx)
+    from .core import run_parallel
+    run_parallel(ctx, 'harness.c04', 'work', cs, nproc=4 if ctx.quick() else None)
     return finish(ctx, aud,
                   partial=['EPL/XPL are stop conjugates: checked against the matrix specification numerically, no theorem yet'],
                   assumptions=['scalar NumPy float64 arithmetic is IEEE-754 and deterministic',
